@@ -903,7 +903,7 @@ pub fn generate(name: &str, count: usize, rng: &mut Rng, sink: &mut dyn FnMut(Se
             let port_decor: [(&str, &str); 12] = [("+", ""), ("0", ""), ("", " "), ("", "\t"), ("0x", ""), ("", "."), ("", ","), ("\t", ""),
                 ("", "\0"), ("-", ""), ("", "e0"), ("", "_")];
             let fixed4: [&str; 8] = ["0x7f.0.0.1", "0177.0.0.1", "127.1", "2130706433", "1.2.3.4.", "\u{661}.2.3.4", "1.2.3.\u{ff14}", "::ffff:1.2.3.4"];
-            let fixed_port: [&str; 4] = ["\u{ff18}\u{ff10}", "\u{661}\u{662}", "8 0", "0x50"];
+            let fixed_port: [&str; 8] = ["\u{ff18}\u{ff10}", "\u{661}\u{662}", "8 0", "0x50", "00", "000", "00000", "0000000"];
             let mut i = 0;
             let mut emit = |toks: &[Vec<u8>], idx: usize, elem: &str, repl: Vec<u8>, sink: &mut dyn FnMut(Session)| {
                 let base: Vec<u8> = toks.concat();
@@ -950,6 +950,41 @@ pub fn generate(name: &str, count: usize, rng: &mut Rng, sink: &mut dyn FnMut(Se
                 // the other family's valid address in an otherwise valid line
                 emit(&l4, 4, "src", b"2001:db8::1".to_vec(), &mut *sink);
                 emit(&l6, 6, "dst", b"192.0.2.1".to_vec(), &mut *sink);
+            }
+        }
+        // UNKNOWN lines whose free text is made of the protocol's own vocabulary (keywords, their
+        // prefixes, a whole header line) at the start, in the middle and at the END of the text:
+        // every single word and every ordered pair, whole and one byte per read
+        "v1words" => {
+            let words: [&str; 12] = ["PROXY", "PROX", "P", "UNKNOWN", "UNKN", "U", "TCP4", "TCP6", "T", "PROXY UNKNOWN", "PROXY TCP4 1.2.3.4 5.6.7.8 1 2", "x"];
+            let mut texts: Vec<String> = Vec::new();
+            for a in words.iter() {
+                texts.push(format!(" {}", a));
+                for b in words.iter() {
+                    texts.push(format!(" {} {}", a, b));
+                }
+            }
+            for a in ["PROXY", "UNKNOWN", "TCP4"] {
+                texts.push(format!(" x{}", a));
+                texts.push(format!(" {}x", a));
+                texts.push(format!(" {} ", a));
+                texts.push(format!("  {}", a));
+            }
+            let total = texts.len();
+            let take = count.min(total);
+            let step = total as f64 / take as f64;
+            let off = (rng.below(97) as f64) / 97.0 * step;
+            for i in 0..take {
+                let text = &texts[((off + i as f64 * step) as usize).min(total - 1)];
+                let mut bytes = format!("PROXY UNKNOWN{}\r\n", text).into_bytes();
+                if bytes.len() > 107 {
+                    continue;
+                }
+                if i % 3 == 0 {
+                    bytes.extend_from_slice(b"PROXY");
+                }
+                let chunks = if i % 2 == 0 { split_each(&bytes) } else { vec![bytes.clone()] };
+                sink(Session { sid: format!("v1words-{}", i), tag: json!({"g": "v1words"}), chunks, huge: None, consume: false });
             }
         }
         // arbitrary bytes over small alphabets, incl. multi-byte characters next to CR
